@@ -357,3 +357,40 @@ func H_C18_casemaps() {
 	verif.Assert(verif.Eq(m["l"], lo), "lower-is-unicode-simple-map")
 	verif.Reach("end")
 }
+
+// H_C18_argspelling: an argument written as a negative literal or as an
+// arithmetic expression reaches the function as its value.
+func H_C18_argspelling() {
+	form := verif.Choose("form", 7)
+	k := verif.IntRange("x", -3, 4)
+	x := float64(k)
+	doc := Map{"t": []any{Map{"x": x, "s": "t=", "b": true}}}
+	var sql string
+	var want any
+	switch form {
+	case 0:
+		sql, want = "SELECT CONCAT(s, -5) AS v FROM t", "t=-5"
+	case 1:
+		sql, want = "SELECT CONCAT(s, x * 2) AS v FROM t", "t="+itoaG(2*k)
+	case 2:
+		sql, want = "SELECT ARRAY(1, -2, 1 + 2, x - 1) AS v FROM t", []any{float64(1), float64(-2), float64(3), x - 1}
+	case 3:
+		sql, want = "SELECT CHANGETYPE(-1.5, 'string') AS v FROM t", "-1.5"
+	case 4:
+		sql, want = "SELECT FIRST(ARRAY(-1, x)) AS v FROM t", float64(-1)
+	case 5:
+		sql, want = "SELECT CONCAT(IF(b, -1, 1 + 1), s) AS v FROM t", "-1t="
+	case 6:
+		sql, want = "SELECT CHANGETYPE(x + 1, 'array') AS v, ELEMENTAT(ARRAY(x, x + 1), 2 - 1) AS e FROM t", []any{x + 1}
+	}
+	m, err := oneRow(doc, sql)
+	verif.Assert(err == nil, "no-error")
+	if err != nil {
+		return
+	}
+	verif.Assert(verif.Eq(m["v"], want), "argument-value")
+	if form == 6 {
+		verif.Assert(verif.Eq(m["e"], x+1), "argument-value")
+	}
+	verif.Reach("end")
+}
